@@ -22,8 +22,8 @@ ASSUMPTIONS = [
     "coverage and exclusivity by R3 (vf/ref/acl.py); cases where the ideal coverage and the implementation's documented winner rule disagree (known findings of C06) are skipped and counted",
     "programs never yield rows in negated form",
 ]
-FLOORS = {"quick": {"runs": 1200, "outcome_ok": 300, "outcome_generator_error": 150, "outcome_not_exclusive": 60, "block_contexts_entered": 2000, "annotated_runs": 80, "annotated_rows": 200},
-          "thorough": {"runs": 50000, "outcome_ok": 12000, "outcome_generator_error": 6000, "outcome_not_exclusive": 2500, "block_contexts_entered": 80000, "annotated_runs": 3000, "annotated_rows": 8000}}
+FLOORS = {"quick": {"runs": 1200, "outcome_ok": 300, "outcome_generator_error": 150, "outcome_not_exclusive": 60, "block_contexts_entered": 2000, "annotated_runs": 80, "annotated_rows": 200, "cases_with_a_silent_generator": 300},
+          "thorough": {"runs": 50000, "outcome_ok": 12000, "outcome_generator_error": 6000, "outcome_not_exclusive": 2500, "block_contexts_entered": 80000, "annotated_runs": 3000, "annotated_rows": 8000, "cases_with_a_silent_generator": 12000}}
 VENDORS = ["huawei", "cisco", "arista", "nexus"]
 HEADS = ["a", "b", "c", "interface", "router", "x"]
 KEYS = ["k1", "k2", "e1", "10"]
@@ -283,7 +283,7 @@ def exclusive_walk(tree, locals_, globals_, prefix, path=()):
     return None
 
 
-def make_case(seed):
+def make_case(seed, silent=False):
     rng = random.Random(seed)
     vname = rng.choice(VENDORS)
     ngen = rng.choice([1, 2, 2, 3, 4])
@@ -319,17 +319,25 @@ def make_case(seed):
         spec = A.AclRule("ntp k1", cant_delete=[True])
         gens[a]["acl"] += [spec, A.AclRule("ntp ~")] if rng.random() < 0.7 else [spec]
         gens[b]["acl"] += [A.AclRule("ntp *")]
+    if silent and gens and gens[0]["paths"]:
+        # a generator that yields nothing on this device but whose ACL claims (deletably) rows another generator yields
+        srng = random.Random(seed ^ 0x51)
+        donor = srng.choice([g for g in gens if g["paths"]])
+        acl, _ = acl_for(srng, [tuple(x_) for x_ in donor["paths"]], "all")
+        gens.insert(srng.randrange(len(gens) + 1), {"name": "GenSilent", "program": [], "paths": [], "acl": acl, "mode": "all"})
     for g in gens:
         g["paths"] = [tuple(p) for p in g["paths"]]
     return vname, gens, rng
 
 
-def check_case(seed, acc):
+def check_case(seed, acc, silent=False):
     from annet.generators import GeneratorError
     from annet.annlib.patching import AclNotExclusiveError, AclError
     from annet.vendors import registry_connector
     from vf import harness_gen as H
-    vname, gens, rng = make_case(seed)
+    vname, gens, rng = make_case(seed, silent)
+    if silent:
+        acc.count("cases_with_a_silent_generator")
     v = registry_connector.get()[vname]
     prefix = v.reverse
     dev = H.FakeDevice(v.hardware)
@@ -340,7 +348,7 @@ def check_case(seed, acc):
         text = render_indented(g["acl"], rng)
         texts.append(text)
         real.append(H.make_partial(g["name"], vname, text, make_run(g["program"], counter)))
-    w = {"seed": seed, "vendor": vname, "generators": [{"name": g["name"], "program": g["program"], "acl": A.render(g["acl"]), "acl_mode": g["mode"]} for g in gens]}
+    w = {"seed": seed, "silent": silent, "vendor": vname, "generators": [{"name": g["name"], "program": g["program"], "acl": A.render(g["acl"]), "acl_mode": g["mode"]} for g in gens]}
     exp = expected_outcome(gens, prefix)
     if exp[0] == "skip":
         acc.count("skipped_known_acl_mechanism")
@@ -405,7 +413,7 @@ def c10_rows(tree):
 
 def run_shard(spec, acc):
     if spec["mode"] == "replay":
-        check_case(spec["witness"]["seed"], acc)
+        check_case(spec["witness"]["seed"], acc, silent=bool(spec["witness"].get("silent")))
         return
     tier, k, n = spec["tier"], spec["shard"], spec["nshards"]
     total = 2000 if tier == "quick" else 80000
@@ -414,3 +422,5 @@ def run_shard(spec, acc):
         w = check_case(rng.randrange(1 << 48), acc)
         if j < 3 and w:
             acc.sample({k2: w[k2] for k2 in ("vendor", "generators", "expected")})
+        if j % 5 == 1:
+            check_case(rng.randrange(1 << 48), acc, silent=True)
